@@ -859,8 +859,8 @@ impl Hooks for Sched {
         let err = (g.rng.below(100) as u8) < spec.send_err_pct;
         let dropped = (g.rng.below(100) as u8) < spec.drop_pct;
         let dup = (g.rng.below(100) as u8) < spec.dup_pct;
-        let d1 = g.rng.range(1_000, 1_000 + spec.max_delay_us as u64 * 1_000);
-        let d2 = g.rng.range(1_000, 1_000 + spec.max_delay_us as u64 * 1_000);
+        let d1 = g.rng.range(200_000, 1_200_000 + spec.max_delay_us as u64 * 1_000);
+        let d2 = g.rng.range(200_000, 1_200_000 + spec.max_delay_us as u64 * 1_000);
         let target = g.socks.iter().position(|s| s.open && s.addr == dst4);
         if err {
             outcome = "error";
